@@ -28,6 +28,10 @@ type c17Case struct {
 	Pollers     int    `json:"pollers"`
 	GoMaxProcs  int    `json:"gomaxprocs"`
 	SpinBefore  int    `json:"spin_before"` // scheduler yields between starting the pollers and calling Run
+	// RetryValid: when the first Run fails (as it must for a malformed address or a bound port) the caller
+	// retries Run on the SAME Server with a valid free address, Retries times a failing one first
+	RetryValid bool `json:"retry_valid,omitempty"`
+	Retries    int  `json:"retries,omitempty"`
 }
 
 var c17Valid = []string{"127.0.0.1:%d", "localhost:%d", ":%d", "[::1]:%d", "::1:%d", "0.0.0.0:%d", "[::]:%d"}
@@ -128,142 +132,161 @@ func c17Exec(c c17Case, st *lab.Stats) *lab.Fail {
 	if s.Ready() {
 		return lab.Failf("ready-before-run", "Ready() is true before Run was called")
 	}
-	var stop int32
-	var sawTrue int32
-	var dialFail atomic.Value // string
-	var wg sync.WaitGroup
-	probe := func() string {
-		a := s.VerifListenAddr()
-		if a == nil {
-			return "Ready() == true but the server has no listener"
+	attemptNo := 0
+	var attempt func(addr string, valid, inUse bool) *lab.Fail
+	attempt = func(addr string, valid, inUse bool) *lab.Fail {
+		attemptNo++
+		var stop int32
+		var sawTrue int32
+		var dialFail atomic.Value // string
+		var wg sync.WaitGroup
+		probe := func() string {
+			a := s.VerifListenAddr()
+			if a == nil {
+				return "Ready() == true but the server has no listener"
+			}
+			target := a.String()
+			if h, p, err := net.SplitHostPort(target); err == nil && (h == "::" || h == "0.0.0.0" || h == "") {
+				target = net.JoinHostPort("127.0.0.1", p)
+				if h == "::" && strings.HasPrefix(c.Form, "[::]") {
+					target = net.JoinHostPort("::1", p)
+				}
+			}
+			var cl *lab.Client
+			var err error
+			if clientTLS != nil {
+				cl, err = lab.DialTLS(target, clientTLS)
+			} else {
+				cl, err = lab.Dial(target)
+			}
+			if err != nil {
+				return fmt.Sprintf("Ready() == true but dialing %s fails: %v", target, err)
+			}
+			defer cl.Close()
+			_ = cl.Send(simpleReq("bind", 1).Bytes())
+			m, err := cl.Next(10 * time.Second)
+			if err != nil || m.ID != 1 {
+				return fmt.Sprintf("Ready() == true, connected to %s, but the bind was not served: %v", target, err)
+			}
+			return ""
 		}
-		target := a.String()
-		if h, p, err := net.SplitHostPort(target); err == nil && (h == "::" || h == "0.0.0.0" || h == "") {
-			target = net.JoinHostPort("127.0.0.1", p)
-			if h == "::" && strings.HasPrefix(c.Form, "[::]") {
-				target = net.JoinHostPort("::1", p)
+		for i := 0; i < c.Pollers; i++ {
+			wg.Add(1)
+			go func() {
+				defer wg.Done()
+				for atomic.LoadInt32(&stop) == 0 {
+					if c.GoMaxProcs <= 2 {
+						runtime.Gosched() // a pure spin on 1-2 Ps costs a 10 ms preemption slice per poller and step
+					}
+					if s.Ready() {
+						first := atomic.CompareAndSwapInt32(&sawTrue, 0, 1)
+						if first {
+							if msg := probe(); msg != "" {
+								dialFail.Store(msg)
+							}
+						}
+						return
+					}
+				}
+			}()
+		}
+		for i := 0; i < c.SpinBefore; i++ {
+			runtime.Gosched()
+		}
+		runErr := make(chan error, 1)
+		go func() { runErr <- s.Run(addr, runOpts...) }()
+		var rerr error
+		returned := false
+		// wait until Run has returned or the server reports Ready (hostname forms
+		// may take up to 1 s in validateAddrPort's resolver lookup)
+		deadline := time.Now().Add(10 * time.Second)
+		for !s.Ready() && !returned {
+			select {
+			case rerr = <-runErr:
+				returned = true
+			default:
+				if time.Now().After(deadline) {
+					atomic.StoreInt32(&stop, 1)
+					wg.Wait()
+					st.Inconclusive(fmt.Sprintf("Run(%q) neither returned nor became ready in 10 s", addr))
+					return nil
+				}
+				time.Sleep(50 * time.Microsecond)
 			}
 		}
-		var cl *lab.Client
-		var err error
-		if clientTLS != nil {
-			cl, err = lab.DialTLS(target, clientTLS)
-		} else {
-			cl, err = lab.Dial(target)
+		if !returned {
+			// Ready is true: did Run fail at the same moment?
+			select {
+			case rerr = <-runErr:
+				returned = true
+			case <-time.After(2 * time.Millisecond):
+			}
 		}
-		if err != nil {
-			return fmt.Sprintf("Ready() == true but dialing %s fails: %v", target, err)
-		}
-		defer cl.Close()
-		_ = cl.Send(simpleReq("bind", 1).Bytes())
-		m, err := cl.Next(10 * time.Second)
-		if err != nil || m.ID != 1 {
-			return fmt.Sprintf("Ready() == true, connected to %s, but the bind was not served: %v", target, err)
-		}
-		return ""
-	}
-	for i := 0; i < c.Pollers; i++ {
-		wg.Add(1)
-		go func() {
-			defer wg.Done()
-			for atomic.LoadInt32(&stop) == 0 {
-				if c.GoMaxProcs <= 2 {
-					runtime.Gosched() // a pure spin on 1-2 Ps costs a 10 ms preemption slice per poller and step
+		if returned {
+			// Run returned: with a nil error only after Stop (not called) -> treat nil as harness trouble
+			time.Sleep(time.Millisecond)
+			atomic.StoreInt32(&stop, 1)
+			wg.Wait()
+			if rerr == nil {
+				return lab.Failf("run-returned-nil", "Run(%q) (attempt %d on this server) returned nil although Stop was never called", addr, attemptNo)
+			}
+			if atomic.LoadInt32(&sawTrue) == 1 {
+				return lab.Failf("ready-true-but-run-failed", "Run(%q) failed (%v) but a poller observed Ready() == true", addr, rerr)
+			}
+			if s.Ready() {
+				return lab.Failf("ready-true-after-run-failed", "Run(%q) failed (%v) and Ready() is true afterwards", addr, rerr)
+			}
+			if valid && !inUse {
+				st.Class("valid-address-rejected:" + c.Form)
+				if !strings.Contains(rerr.Error(), "in use") {
+					return lab.Failf("valid-address-rejected", "Run(%q) (attempt %d on this server) failed for a valid address: %v", addr, attemptNo, rerr)
 				}
-				if s.Ready() {
-					first := atomic.CompareAndSwapInt32(&sawTrue, 0, 1)
-					if first {
-						if msg := probe(); msg != "" {
-							dialFail.Store(msg)
-						}
-					}
-					return
+			}
+			if c.RetryValid && attemptNo <= c.Retries {
+				// once more a failing Run on the same server
+				return attempt(addr, valid, inUse)
+			}
+			if c.RetryValid && attemptNo == c.Retries+1 {
+				p2, err := lab.FreeLocalPort()
+				if err != nil {
+					st.Inconclusive(err.Error())
+					return nil
 				}
+				st.Class("retry-with-valid-address")
+				return attempt(fmt.Sprintf("127.0.0.1:%d", p2), true, false)
+			}
+			return nil
+		}
+		// serving
+		defer func() {
+			done := make(chan struct{})
+			go func() { _ = s.Stop(); close(done) }()
+			select {
+			case <-done:
+			case <-time.After(10 * time.Second):
 			}
 		}()
-	}
-	for i := 0; i < c.SpinBefore; i++ {
-		runtime.Gosched()
-	}
-	runErr := make(chan error, 1)
-	go func() { runErr <- s.Run(addr, runOpts...) }()
-	var rerr error
-	returned := false
-	// wait until Run has returned or the server reports Ready (hostname forms
-	// may take up to 1 s in validateAddrPort's resolver lookup)
-	deadline := time.Now().Add(10 * time.Second)
-	for !s.Ready() && !returned {
-		select {
-		case rerr = <-runErr:
-			returned = true
-		default:
-			if time.Now().After(deadline) {
-				atomic.StoreInt32(&stop, 1)
-				wg.Wait()
-				st.Inconclusive(fmt.Sprintf("Run(%q) neither returned nor became ready in 10 s", addr))
-				return nil
-			}
-			time.Sleep(50 * time.Microsecond)
-		}
-	}
-	if !returned {
-		// Ready is true: did Run fail at the same moment?
-		select {
-		case rerr = <-runErr:
-			returned = true
-		case <-time.After(2 * time.Millisecond):
-		}
-	}
-	if returned {
-		// Run returned: with a nil error only after Stop (not called) -> treat nil as harness trouble
-		time.Sleep(time.Millisecond)
-		atomic.StoreInt32(&stop, 1)
+		// pollers finish their probe
 		wg.Wait()
-		if rerr == nil {
-			return lab.Failf("run-returned-nil", "Run(%q) returned nil although Stop was never called", addr)
+		atomic.StoreInt32(&stop, 1)
+		if v := dialFail.Load(); v != nil {
+			return lab.Failf("ready-but-not-listening", "Run(%q): %s", addr, v.(string))
 		}
-		if atomic.LoadInt32(&sawTrue) == 1 {
-			return lab.Failf("ready-true-but-run-failed", "Run(%q) failed (%v) but a poller observed Ready() == true", addr, rerr)
+		if msg := probe(); msg != "" {
+			return lab.Failf("ready-but-not-listening", "Run(%q) (attempt %d on this server): %s", addr, attemptNo, msg)
 		}
-		if s.Ready() {
-			return lab.Failf("ready-true-after-run-failed", "Run(%q) failed (%v) and Ready() is true afterwards", addr, rerr)
-		}
-		if c.Valid && !c.PortInUse {
-			st.Class("valid-address-rejected:" + c.Form)
-			if !strings.Contains(rerr.Error(), "in use") {
-				return lab.Failf("valid-address-rejected", "Run(%q) failed for a valid address: %v", addr, rerr)
-			}
+		if !valid || inUse {
+			return lab.Failf("invalid-address-accepted", "Run(%q) (valid=%v, port in use=%v) is serving", addr, valid, inUse)
 		}
 		return nil
 	}
-	// serving
-	defer func() {
-		done := make(chan struct{})
-		go func() { _ = s.Stop(); close(done) }()
-		select {
-		case <-done:
-		case <-time.After(10 * time.Second):
-		}
-	}()
-	// pollers finish their probe
-	wg.Wait()
-	atomic.StoreInt32(&stop, 1)
-	if v := dialFail.Load(); v != nil {
-		return lab.Failf("ready-but-not-listening", "Run(%q): %s", addr, v.(string))
-	}
-	if msg := probe(); msg != "" {
-		return lab.Failf("ready-but-not-listening", "Run(%q): %s", addr, msg)
-	}
-	if !c.Valid || c.PortInUse {
-		return lab.Failf("invalid-address-accepted", "Run(%q) (valid=%v, port in use=%v) is serving", addr, c.Valid, c.PortInUse)
-	}
-	return nil
+	return attempt(addr, c.Valid, c.PortInUse)
 }
 
 func TestC17(t *testing.T) {
 	lab.Prop[c17Case]{
 		ID: "C17", Part: "ready",
-		Rule: "rapid: listen addresses valid (127.0.0.1, localhost, empty host, [::1], bare ::1, 0.0.0.0, [::]), malformed (15 forms: empty, no port, empty port, unbalanced brackets, bad IPv4/IPv6, text), valid forms with an out-of-range port number (port +- 65536...) and valid-but-port-already-bound (held by a plain listener of the harness or by another running gldap server), each with and without WithTLSConfig (held by the harness on both loopback families); 0..8 poller goroutines spin on Ready() from BEFORE Run is called and the first one that sees true dials immediately; GOMAXPROCS 1/2/4/16; oracle = Ready false before Run; Ready true => dial succeeds and a bind is served; Run error => no poller ever saw true and Ready is false afterwards; non-trivial = failing address or pollers spinning before Run; distinct by hash",
+		Rule: "rapid: listen addresses valid (127.0.0.1, localhost, empty host, [::1], bare ::1, 0.0.0.0, [::]), malformed (15 forms: empty, no port, empty port, unbalanced brackets, bad IPv4/IPv6, text), valid forms with an out-of-range port number (port +- 65536...) and valid-but-port-already-bound (held by a plain listener of the harness or by another running gldap server), each with and without WithTLSConfig (held by the harness on both loopback families); 0..8 poller goroutines spin on Ready() from BEFORE Run is called and the first one that sees true dials immediately; GOMAXPROCS 1/2/4/16; after a failing Run the caller may retry on the SAME Server (0..2 more failing Runs, then a valid free address, pollers again); oracle = Ready false before Run; Ready true => dial succeeds and a bind is served; Run error => no poller ever saw true and Ready is false afterwards; non-trivial = failing address or pollers spinning before Run; distinct by hash",
 		Gen: func(t *rapid.T) c17Case {
 			c := c17Case{
 				Pollers:    rapid.SampledFrom([]int{0, 1, 2, 4, 8}).Draw(t, "pollers"),
@@ -285,8 +308,81 @@ func TestC17(t *testing.T) {
 			default:
 				c.Form, c.Valid = rapid.SampledFrom(c17Valid).Draw(t, "validform"), true
 			}
+			if (!c.Valid || c.PortInUse) && rapid.IntRange(0, 2).Draw(t, "retry") > 0 {
+				c.RetryValid = true
+				if !c.Valid && c.PortAdd == 0 {
+					c.Retries = 0 // malformed forms cost a resolver timeout each
+				} else {
+					c.Retries = rapid.IntRange(0, 2).Draw(t, "retries")
+				}
+			}
 			return c
 		},
 		Exec: c17Exec,
+	}.Run(t)
+}
+
+// c17OutageExec runs descriptor-shortage scenarios in worker child processes
+// (the C07 laboratory) and judges them by C17's statement only: Stop is never
+// called, so whenever Ready() is true after the shortage a new connection must
+// be accepted and served.
+func c17OutageExec(c c07Batch, st *lab.Stats) *lab.Fail {
+	cases := make([]interface{}, len(c.Scenarios))
+	for i := range c.Scenarios {
+		cases[i] = c.Scenarios[i]
+	}
+	res, err := lab.RunWorkers("c07", cases, 60*time.Second)
+	if err != nil {
+		st.Inconclusive(err.Error())
+		return nil
+	}
+	var first *lab.Fail
+	for i, r := range res {
+		s := c.Scenarios[i]
+		if r.Skipped != "" {
+			st.Inconclusive(fmt.Sprintf("scenario %+v skipped: %s", s, r.Skipped))
+			continue
+		}
+		st.Case(r.Delivered, lab.JSONKey(s), fmt.Sprintf("outages=%d", s.Outages), fmt.Sprintf("outage-ms=%d", s.OutageMs), fmt.Sprintf("delivered=%v", r.Delivered))
+		if st.WantSample() {
+			st.Sample(s)
+		}
+		var f *lab.Fail
+		switch {
+		case r.Died:
+			f = lab.Failf("process-died:"+s.Fault, "scenario %+v: the server process died or hung: %s %s", s, r.ExitInfo, tailOf(r.Stderr, 600))
+		case !r.OK:
+			f = &lab.Fail{Fingerprint: r.FP, Message: r.Msg}
+		}
+		if f != nil {
+			if known := st.Report(f, c07Batch{Scenarios: []c07Scenario{s}}); !known && first == nil {
+				first = f
+			}
+		}
+	}
+	return first
+}
+
+func TestC17Outage(t *testing.T) {
+	lab.Prop[c07Batch]{
+		ID: "C17", Part: "outage",
+		Rule: "rapid: a running server (Ready() == true, Stop never called) goes through 1..12 descriptor shortages of 5..1200 ms (RLIMIT_NOFILE lowered in a worker child process so that accept fails with EMFILE while clients connect), with 0..2 bystander connections exchanging requests; oracle = whenever Ready() is still true afterwards, a new connection is accepted and its bind served; non-trivial = accept really failed (a client-side dial hit the limit too); distinct by scenario",
+		Gen: func(t *rapid.T) c07Batch {
+			var b c07Batch
+			n := rapid.IntRange(2, 6).Draw(t, "n")
+			for i := 0; i < n; i++ {
+				s := c07Scenario{Fault: "emfile", CheckReady: true, Exchanges: 2,
+					Bystanders: rapid.IntRange(0, 2).Draw(t, "bystanders"),
+					OutageMs:   rapid.SampledFrom([]int{5, 30, 60, 150, 400, 1200}).Draw(t, "outagems"),
+					Outages:    rapid.SampledFrom([]int{1, 1, 2, 4, 12}).Draw(t, "outages"),
+				}
+				if s.OutageMs >= 400 && s.Outages > 2 {
+					s.Outages = 2
+				}
+				b.Scenarios = append(b.Scenarios, s)
+			}
+			return b
+		},
+		Exec: c17OutageExec,
 	}.Run(t)
 }
